@@ -303,6 +303,67 @@ func main() {
 			t.Note("shimmed pool in LIFO mode; instance identity asserted so the cycle is not vacuous")
 		})
 
+		// Whatever writer an application hands to PutWriter - one it built over a buffer of its own,
+		// whose capacity may exceed its length - a later GetWriter(n) for any size gives a writer that
+		// behaves like a fresh GetWriter(n): same Size(), same frames for the same writes.
+		r.Part("E3b-GetWriter-after-PutWriter-of-application-built-writers", func(t *explore.T) {
+			for _, client := range []bool{false, true} {
+				for _, ln := range []int{20, 64, 200, 1000} {
+					for _, cp := range []int{0, 128, 256, 1024, 4096} {
+						if cp != 0 && cp <= ln {
+							continue
+						}
+						client, ln, cp := client, ln, cp
+						t.Do(func() string {
+							return fmt.Sprintf("client=%v: a writer over an application buffer of len %d cap %d is written, flushed and given to PutWriter; then GetWriter for every size class", client, ln, cp)
+						}, func() *explore.Fail {
+							vsync.SetMode(vsync.LIFO)
+							vsync.ResetAll()
+							defer vsync.SetMode(vsync.Passthrough)
+							st := ws.StateServerSide
+							if client {
+								st = ws.StateClientSide
+							}
+							buf := make([]byte, ln)
+							if cp != 0 {
+								buf = make([]byte, ln, cp)
+							}
+							w := wsutil.NewWriterBuffer(env.NewDst(), st, ws.OpText, buf)
+							w.Write([]byte("hello"))
+							w.Flush()
+							wsutil.PutWriter(w)
+							for _, n := range []int{128, 256, 512, 1024, 2048, 4096, 65536} {
+								run := func(g *wsutil.Writer, d *env.Dst) string {
+									g.Write(bytes.Repeat([]byte{'x'}, 300))
+									g.Flush()
+									fr, rest := drivers.ParseFrames(d.Bytes())
+									var b strings.Builder
+									fmt.Fprintf(&b, "size=%d rest=%d", g.Size(), len(rest))
+									for _, f := range fr {
+										fmt.Fprintf(&b, " [fin=%v op=%x len=%d]", f.H.Fin, f.H.Op, len(f.Payload))
+									}
+									return b.String()
+								}
+								d1 := env.NewDst()
+								got := run(wsutil.GetWriter(d1, st, ws.OpBinary, n), d1)
+								vsync.ResetAll()
+								d2 := env.NewDst()
+								want := run(wsutil.GetWriter(d2, st, ws.OpBinary, n), d2)
+								if got != want {
+									return explore.Failf("GetWriter-after-PutWriter-of-an-application-writer-differs-from-fresh", "GetWriter(%d): %s; on an empty pool: %s", n, got, want)
+								}
+								// put the odd writer back for the next class
+								w2 := wsutil.NewWriterBuffer(env.NewDst(), st, ws.OpText, buf)
+								wsutil.PutWriter(w2)
+							}
+							return nil
+						})
+					}
+				}
+			}
+			t.Outcome("as-fresh")
+		})
+
 		r.Part("E4-wsflate.Writer.Reset", func(t *explore.T) {
 			type ctor struct {
 				name string
